@@ -212,7 +212,8 @@ Definition parse_dec_body (neg : bool) (s : bytes) : option dec :=
     | 46 :: r => let '(fp, nfr, r') := take_digits r ip 0 in (fp, nfr, ni + nfr, r')
     | _ => (ip, 0, ni, r1)
     end in
-  if nd =? 0 then None else
+  (* no digit at all: the package still accepts a lone decimal point (".", "-.", "+.") as zero *)
+  if nd =? 0 then (match r1, r2 with 46 :: _, [] => Some (DFin neg 0 0) | _, _ => None end) else
   match r2 with
   | [] => match fit neg c (- nf) with DInf _ => None (* range error *) | d => Some d end
   | b :: r =>
